@@ -198,4 +198,25 @@ def violations (keys dd : List String) (pre : Registry) (p : List ProgFile) : Li
   let e : SpecEnv := { keys := keys, defaultDeriving := dd, reg := progRegistry pre p }
   (progDecls p).flatMap (fun (f, ns, d) => declRules e f ns d)
 
+/-! ### programs of several files
+
+An imported file is a unit of its own: it is finished (its names registered, its references bound, its rules
+checked) before the file that imports it goes on, so it is read against the declarations of the files finished no
+later than itself — never against declarations that only the importing file adds afterwards. `p` lists the files in
+the order they are finished (imports before the importer, in textual order). For one file, and whenever no file
+refers to (or is shadowed by) a name that is declared only later, this is `violations`. -/
+
+/-- the registry file number `i` (in finish order) is read against -/
+def regUpTo (pre : Registry) (p : List ProgFile) (i : Nat) : Registry := progRegistry pre (p.take (i + 1))
+
+def violationsFrom (keys dd : List String) (pre : Registry) (p : List ProgFile) : Nat → List ProgFile → List Diag
+  | _, [] => []
+  | i, f :: rest =>
+    (progDecls [f]).flatMap (fun (fl, ns, d) => declRules { keys := keys, defaultDeriving := dd, reg := regUpTo pre p i } fl ns d)
+      ++ violationsFrom keys dd pre p (i + 1) rest
+
+/-- all rule violations of a program whose files are listed in finish order -/
+def violationsOrdered (keys dd : List String) (pre : Registry) (p : List ProgFile) : List Diag :=
+  violationsFrom keys dd pre p 0 p
+
 end Pydjinni.Front
